@@ -1,5 +1,6 @@
 import Guard
 import Guard.Judge.C02
+import Guard.Spec.Spec
 import Lean.Data.Json
 /-
   guard_model — line-protocol driver for the executable model.
@@ -315,6 +316,17 @@ def handle (j : Json) : Json :=
     | .err e => Json.mkObj [("id", id), ("err", Json.str e.toStr)]
     | .panic s => Json.mkObj [("id", id), ("panic", Json.str (siteName s))]
     | .outOfFuel => Json.mkObj [("id", id), ("outOfFuel", true)]
+  | "spec" =>
+    let env := mkEnv (jfield j "env")
+    let file := parseRulesFile (jfield j "ast")
+    let doc := parsePV (jfield j "doc")
+    match Spec.runFile env 4000 file doc with
+    | .ok (rs, s) =>
+      Json.mkObj [("id", id), ("spec", "ok"), ("status", Json.str s.toStr),
+        ("rules", Json.arr (rs.map fun (n, s) => Json.arr #[sOf n, Json.str s.toStr]).toArray)]
+    | .undefined => Json.mkObj [("id", id), ("spec", "undefined")]
+    | .outside => Json.mkObj [("id", id), ("spec", "outside")]
+    | .fuel => Json.mkObj [("id", id), ("spec", "fuel")]
   | "consistent" =>
     let t := parseRec (jfield j "tree")
     let ok := Consistent t
